@@ -482,7 +482,7 @@ def foreign_variant(i, rng=None):
     S, O = F_SO[i % len(F_SO)]
     if rng is not None and i % 4 == 3:
         S, O = float(np.float32(10 ** rng.uniform(-0.6, 0.6))), float(np.float32(10 ** rng.uniform(-0.6, 0.6)))
-    return {'res': F_RES[i % 3], 'S': S, 'O': O, 'iw': iw, 'ih': ih, 'ib': ib, 'pad': F_PAD[(i // 3) % len(F_PAD)],
+    return {'res': 3 if i % 11 == 10 else F_RES[i % 3], 'S': S, 'O': O, 'iw': iw, 'ih': ih, 'ib': ib, 'pad': F_PAD[(i // 3) % len(F_PAD)],
             'mia': F_MIA[(i // 2) % len(F_MIA)], 'iseed': int(i * 7919 % 65536)}
 
 
@@ -558,6 +558,8 @@ def foreign_pred(route, a, dx, wvl, fo, tmp, cut=None, prec32=False):
             r0 = pio.read_zygo_dat(f)
         full, lat0, wv0 = r0['phase'], r0['meta']['lateral_resolution'], r0['meta']['wavelength']
     data, off = make_foreign(raw, fo)
+    if fo['res'] not in _RES:
+        return None
     if cut is None:
         with open(f, 'wb') as fh:
             fh.write(data)
@@ -622,7 +624,10 @@ def _foreign_family(ctx, pio, Interferogram, tmp, zc):
             recs.append(rec)
     # truncation of instrument-style files: every cut point of the tier, both routes
     trunc = []
-    tsel = [r for r in recs if r['fo']['iw'] * r['fo']['ih'] > 0 and not r['prec32']]
+    tsel = [r for r in recs if r['fo']['iw'] * r['fo']['ih'] > 0 and not r['prec32'] and r['fo']['res'] in _RES]
+    # maps whose phase block is longer than the intensity block first: a reader that starts the repair inside the intensity
+    # block then shows numbers instead of raising
+    tsel.sort(key=lambda r: -(r['c']['v'].size * 4 - 2 * foreign_block(r['fo']).size))
     tsel = (tsel[:1] + [r for r in tsel if r['fo']['pad'] and r['fo']['ib'] > 1][:1] + tsel[1:])[:ctx.scale(3, 8)]
     for r in tsel:
         f = os.path.join(tmp, 'ft.dat')
@@ -647,11 +652,16 @@ def _foreign_family(ctx, pio, Interferogram, tmp, zc):
         case['opt'] = {'foreign': fo, 'prec32': rec['prec32']}
         item = f'{route}.foreign'
         ctx.case(item, {'shape': case['shape'], 'values': case['values'], 'foreign': fo, 'p32': rec['prec32']}, nontrivial=True,
-                 tag=f'res{fo["res"]}/S{"1" if fo["S"] == 1 else "x"}O{"1" if fo["O"] == 1 else "x"}/int{fo["ib"]}x{fo["ih"]}x{fo["iw"]}/pad{fo["pad"]}/'
+                 tag=f'res{fo["res"]}{"(undefined)" if fo["res"] not in _RES else ""}/S{"1" if fo["S"] == 1 else "x"}O{"1" if fo["O"] == 1 else "x"}/int{fo["ib"]}x{fo["ih"]}x{fo["iw"]}/pad{fo["pad"]}/'
                      f'{fo["mia"].lower()}{"/p32" if rec["prec32"] else ""}/{c["nan"]}')
         if 'rerr' in rec:
-            ctx.disagree(item, case, 'raised ' + rec['rerr'], m[:60])
-            ctx.pred_fail(item, case, 'reader raised on a complete instrument-style file: ' + rec['rerr'])
+            # a resolution code outside ZYGO_PHASE_RES_FACTORS is rejected by both sides; any other exception is a difference
+            if m != 'none' or fo['res'] in _RES:
+                ctx.disagree(item, case, 'raised ' + rec['rerr'], m[:60])
+                ctx.pred_fail(item, case, 'reader raised on a complete instrument-style file: ' + rec['rerr'])
+            continue
+        if fo['res'] not in _RES:
+            ctx.disagree(item, case, 'array returned for an undefined phase_res code', m[:60])
             continue
         out, lat, wv, inten = rec['out']
         bad = judge_foreign(rec['full'], rec['lat0'], rec['wv0'], fo, out, lat, wv, inten, rec['prec32'])
